@@ -4,6 +4,37 @@ import "time"
 
 // The registered harness runs per property.  Parameters are the stated bounds.
 var checks = map[string][]HarnessSpec{
+	"C01": {
+		{Name: "HarnessC01Names", Pkg: "store", Quick: map[string]int{"H": 3}, Thorough: map[string]int{"H": 4}},
+		{Name: "HarnessC01Triples", Pkg: "store", Quick: map[string]int{"PRE": 1, "B": 1, "TEMPORAL": 0}, Thorough: map[string]int{"PRE": 2, "B": 1, "TEMPORAL": 0}},
+		{Name: "HarnessC01Triples", Pkg: "store", Quick: map[string]int{"PRE": 1, "B": 1, "TEMPORAL": 1}, Thorough: map[string]int{"PRE": 1, "B": 1, "TEMPORAL": 1}, OnlyThorough: true, Note: "immutable and temporal predicates sharing identifiers; same instant in two zones"},
+		{Name: "HarnessC01Recreate", Pkg: "store"},
+	},
+	"C02": {
+		{Name: "HarnessC02Lookup", Pkg: "store", Quick: map[string]int{"METHOD": 0, "PRE": 1, "REM": 1, "TEMPORAL": 1}, Thorough: map[string]int{"METHOD": 0, "PRE": 2, "REM": 1, "TEMPORAL": 1}, Note: "Objects"},
+		{Name: "HarnessC02Lookup", Pkg: "store", Quick: map[string]int{"METHOD": 1, "PRE": 1, "REM": 1, "TEMPORAL": 1}, Thorough: map[string]int{"METHOD": 1, "PRE": 2, "REM": 1, "TEMPORAL": 1}, Note: "Subjects"},
+		{Name: "HarnessC02Lookup", Pkg: "store", Quick: map[string]int{"METHOD": 2, "PRE": 1, "REM": 1, "TEMPORAL": 1}, Thorough: map[string]int{"METHOD": 2, "PRE": 2, "REM": 1, "TEMPORAL": 1}, Note: "PredicatesForSubject"},
+		{Name: "HarnessC02Lookup", Pkg: "store", Quick: map[string]int{"METHOD": 3, "PRE": 1, "REM": 1, "TEMPORAL": 1}, Thorough: map[string]int{"METHOD": 3, "PRE": 2, "REM": 1, "TEMPORAL": 1}, Note: "PredicatesForObject"},
+		{Name: "HarnessC02Lookup", Pkg: "store", Quick: map[string]int{"METHOD": 4, "PRE": 1, "REM": 1, "TEMPORAL": 1}, Thorough: map[string]int{"METHOD": 4, "PRE": 2, "REM": 1, "TEMPORAL": 1}, Note: "PredicatesForSubjectAndObject"},
+		{Name: "HarnessC02Lookup", Pkg: "store", Quick: map[string]int{"METHOD": 5, "PRE": 1, "REM": 1, "TEMPORAL": 1}, Thorough: map[string]int{"METHOD": 5, "PRE": 2, "REM": 1, "TEMPORAL": 1}, Note: "TriplesForSubject"},
+		{Name: "HarnessC02Lookup", Pkg: "store", Quick: map[string]int{"METHOD": 6, "PRE": 1, "REM": 1, "TEMPORAL": 1}, Thorough: map[string]int{"METHOD": 6, "PRE": 2, "REM": 1, "TEMPORAL": 1}, Note: "TriplesForPredicate"},
+		{Name: "HarnessC02Lookup", Pkg: "store", Quick: map[string]int{"METHOD": 7, "PRE": 1, "REM": 1, "TEMPORAL": 1}, Thorough: map[string]int{"METHOD": 7, "PRE": 2, "REM": 1, "TEMPORAL": 1}, Note: "TriplesForObject"},
+		{Name: "HarnessC02Lookup", Pkg: "store", Quick: map[string]int{"METHOD": 8, "PRE": 1, "REM": 1, "TEMPORAL": 1}, Thorough: map[string]int{"METHOD": 8, "PRE": 2, "REM": 1, "TEMPORAL": 1}, Note: "TriplesForSubjectAndPredicate"},
+		{Name: "HarnessC02Lookup", Pkg: "store", Quick: map[string]int{"METHOD": 9, "PRE": 1, "REM": 1, "TEMPORAL": 1}, Thorough: map[string]int{"METHOD": 9, "PRE": 2, "REM": 1, "TEMPORAL": 1}, Note: "TriplesForPredicateAndObject"},
+	},
+	"C09": {
+		{Name: "HarnessC09Options", Pkg: "store", Quick: map[string]int{"METHOD": 0, "PRE": 1, "ANCHORS": 2}, Thorough: map[string]int{"METHOD": 0, "PRE": 2, "ANCHORS": 3, "OBJPRED": 1}, OnlyThorough: false},
+		{Name: "HarnessC09Options", Pkg: "store", Quick: map[string]int{"METHOD": 1, "PRE": 1, "ANCHORS": 2}, Thorough: map[string]int{"METHOD": 1, "PRE": 2, "ANCHORS": 3, "OBJPRED": 1}, OnlyThorough: true},
+		{Name: "HarnessC09Options", Pkg: "store", Quick: map[string]int{"METHOD": 2, "PRE": 1, "ANCHORS": 2}, Thorough: map[string]int{"METHOD": 2, "PRE": 2, "ANCHORS": 3, "OBJPRED": 1}, OnlyThorough: true},
+		{Name: "HarnessC09Options", Pkg: "store", Quick: map[string]int{"METHOD": 3, "PRE": 1, "ANCHORS": 2}, Thorough: map[string]int{"METHOD": 3, "PRE": 2, "ANCHORS": 3, "OBJPRED": 1}, OnlyThorough: true},
+		{Name: "HarnessC09Options", Pkg: "store", Quick: map[string]int{"METHOD": 4, "PRE": 1, "ANCHORS": 2}, Thorough: map[string]int{"METHOD": 4, "PRE": 2, "ANCHORS": 3, "OBJPRED": 1}, OnlyThorough: true},
+		{Name: "HarnessC09Options", Pkg: "store", Quick: map[string]int{"METHOD": 5, "PRE": 1, "ANCHORS": 2}, Thorough: map[string]int{"METHOD": 5, "PRE": 2, "ANCHORS": 3, "OBJPRED": 1}, OnlyThorough: true},
+		{Name: "HarnessC09Options", Pkg: "store", Quick: map[string]int{"METHOD": 6, "PRE": 1, "ANCHORS": 2}, Thorough: map[string]int{"METHOD": 6, "PRE": 2, "ANCHORS": 3, "OBJPRED": 1}, OnlyThorough: false},
+		{Name: "HarnessC09Options", Pkg: "store", Quick: map[string]int{"METHOD": 7, "PRE": 1, "ANCHORS": 2}, Thorough: map[string]int{"METHOD": 7, "PRE": 2, "ANCHORS": 3, "OBJPRED": 1}, OnlyThorough: true},
+		{Name: "HarnessC09Options", Pkg: "store", Quick: map[string]int{"METHOD": 8, "PRE": 1, "ANCHORS": 2}, Thorough: map[string]int{"METHOD": 8, "PRE": 2, "ANCHORS": 3, "OBJPRED": 1}, OnlyThorough: false},
+		{Name: "HarnessC09Options", Pkg: "store", Quick: map[string]int{"METHOD": 9, "PRE": 1, "ANCHORS": 2}, Thorough: map[string]int{"METHOD": 9, "PRE": 2, "ANCHORS": 3, "OBJPRED": 1}, OnlyThorough: true},
+		{Name: "HarnessC09PageOverflow", Pkg: "store"},
+	},
 	"C05": {
 		{Name: "HarnessC05Node", Pkg: "leaf", Quick: map[string]int{"L": 2}, Thorough: map[string]int{"L": 3}},
 		{Name: "HarnessC05Predicate", Pkg: "leaf", Quick: map[string]int{"L": 2}, Thorough: map[string]int{"L": 3}, Note: "ids over all non-whitespace byte values"},
@@ -53,6 +84,9 @@ func assumptionsFor(prop string) []string {
 }
 
 var propAssumptions = map[string][]string{
+	"C01": {"universe: subjects /t<a|b>, predicate ids a|b (immutable, or temporal at one of two spellings of one instant), objects node /t<a|b> or text a|b; component bytes are solver variables, kinds are skeleton choices", "pre-state produced by the real code from Add(b1);Remove(b2); one further Add/Remove and interference on a second graph", "SHA-1 as in C06 (equalities of whole hash outputs rewritten to input equalities)"},
+	"C02": {"as C01; lookup arguments are fresh symbolic components (the solver decides whether they coincide with stored ones); options = DefaultLookup", "results are identified with the stored triple whose component object the driver handed out (pointer identity)"},
+	"C09": {"as C02; anchors and window bounds from a concrete pool (two spellings of one instant, a later instant, +1ns); MaxElements and Offset in [0,3] as skeleton choices; the full-range page arithmetic is HarnessC09PageOverflow (n,k in (0,2^32))", "the reference post-processes the default-options result of the same lookup (assume-guarantee with C02)", "stored predicates do not share their identifier with a query predicate of the other kind (that mismatch is C02's known finding)"},
 	"C05": {"node text in the documented domain (types without '<' '>' and whitespace; ids without '<' '>' and whitespace)", "predicate ids: any bytes except whitespace; anchors from a concrete pool of four instants (two zones, nanosecond precision), printed and parsed by the interpreted time package", "float64 literals from a concrete pool of 9 (incl. -0, +-Inf, NaN, subnormal, max): native formatting/parsing, not solver-decided", "int64: full 64-bit range, decimal printing modelled with witness digits, decided by cvc5 --solve-bv-as-int=sum", "triples: 7-bit bytes, small component lengths (params SI, PI, OT); regexp splitting interpreted from the Go regexp package source"},
 	"C16": {"inputs: all strings up to N bytes over 7-bit bytes, and over all 256 byte values up to a smaller N; channel capacities 0, 1, N+1", "whitespace property: both words are assumed to lex, on their own, to exactly one non-error token (the property speaks of whitespace between two tokens)", "printed forms: node types and ids in the documented domain (types without '<' '>'), predicate ids / text without '\"', anchors from a concrete pool of four instants", "unicode.IsLetter/IsDigit/IsSpace/ToLower on symbolic runes are summarised exactly (range tables computed from the same Go release)"},
 	"C06": {"SHA-1 truncated to a version-5 UUID is modelled as real SHA-1 on concrete input and as 16 uninterpreted byte functions per input length on symbolic input, with injectivity instantiated for every pair of applications on a path: no claim about SHA-1 collisions", "node text restricted to the documented domain (no whitespace, no <> in ids, type starts with / and does not end with /)", "temporal anchors: seconds from a concrete pool {0,1,1.6e9}, nanoseconds fully symbolic, three zones; float64 values from a concrete pool of 9 (compared by bit pattern)", "sync.Pool.Get may return a previously Put (dirty) buffer in HarnessC06LiteralDefined"},
